@@ -22,6 +22,10 @@ type c07Case struct {
 	// Untrusted: every event goes through NewEventFromUntrustedJSON (as events from other servers do)
 	// instead of the trusted parser; an event the parser refuses ends the case (nothing to authorise).
 	Untrusted bool `json:"untrusted,omitempty"`
+	// RedactedState: every auth event has been redacted (the library's Redact() on the parsed event;
+	// the reference reads the reference redaction of its JSON). A redacted power-levels / join-rules /
+	// member / create event still says what its kept keys say.
+	RedactedState bool `json:"redacted_state,omitempty"`
 }
 
 func c07Band(version string) string {
@@ -54,6 +58,16 @@ func c07Check(ctx *vfCtx, c c07Case) {
 			return
 		}
 		trees = append(trees, t)
+	}
+	if c.RedactedState {
+		ctx.Class("state-of-redacted-events")
+		for i := range trees {
+			// (not the create event: before version 11 its redaction loses room_version, and with it the
+			// rules the room is judged by - a state no server arrives at by applying a redaction)
+			if evStr(trees[i], "type") != "m.room.create" {
+				trees[i] = rredact(c.Version, trees[i])
+			}
+		}
 	}
 	st := raBuildState(c.Version, trees)
 	if why := raUnjudged(st); why != "" {
@@ -88,6 +102,11 @@ func c07Check(ctx *vfCtx, c c07Case) {
 			}
 			ctx.Unjudged("auth event does not parse: " + c07Short(err))
 			return
+		}
+		if c.RedactedState && p.Type() != "m.room.create" {
+			if vfCatch(ctx, "C07/redact-state", func() { p.Redact() }) {
+				return
+			}
 		}
 		pdus = append(pdus, p)
 	}
@@ -573,6 +592,7 @@ func c07GenRandom(t *rapid.T) c07Case {
 	if rapid.IntRange(0, 11).Draw(t, "foreignAuth") == 0 {
 		c07InjectForeign(t, c.Version, &c)
 	}
+	c.RedactedState = rapid.IntRange(0, 9).Draw(t, "redactedState") == 0
 	return c
 }
 
